@@ -157,6 +157,10 @@ uint64_t vf_os_table_hash(void) {
 void vf_os_adopt(void* addr, size_t len, int prot) {
   os_lock(); region_add(pg_down((uintptr_t)addr), pg_up((uintptr_t)addr + len), prot, 1, (uint32_t)vf_os.ncalls); os_unlock();
 }
+void (*vf_new_handler)(void) = NULL;
+typedef void (*vf_nh_t)(void);
+vf_nh_t _ZSt15get_new_handlerv(void) { return vf_new_handler; }
+
 void vf_os_plan_clear(void) {
   for (int i = 0; i < VF_MAX_FAILS; i++) vf_os.fail_at[i] = -1;
   vf_os.fail_from = -1; vf_os.fail_kinds = 0;
